@@ -288,13 +288,36 @@ where
         let success = true;
 
         if !request.entries.is_empty() {
-            last_log_id_option = raft_log
-                .filter_out_conflicts_and_append(
-                    request.prev_log_index,
-                    request.prev_log_term,
-                    request.entries.clone(),
-                )
-                .await?;
+            let mut prev_log_index = request.prev_log_index;
+            let mut prev_log_term = request.prev_log_term;
+            let mut entries = request.entries.clone();
+            if prev_log_index == 0 && prev_log_term == 0 {
+                // A request anchored at the virtual index 0 makes the log reset itself and keep
+                // only this batch. Entries the follower already holds with the same index and
+                // term are identical (log matching), so anchor the append at the end of that
+                // common prefix: entries agreeing with the leader — e.g. ones appended and
+                // already acknowledged by a later request of the same pipeline — are kept.
+                let common = entries
+                    .iter()
+                    .take_while(|e| raft_log.entry_term(e.index) == Some(e.term))
+                    .count();
+                if common > 0 {
+                    prev_log_index = entries[common - 1].index;
+                    prev_log_term = entries[common - 1].term;
+                    entries.drain(..common);
+                }
+            }
+            last_log_id_option = if entries.is_empty() {
+                // the whole batch is already in the log
+                Some(LogId {
+                    term: prev_log_term,
+                    index: prev_log_index,
+                })
+            } else {
+                raft_log
+                    .filter_out_conflicts_and_append(prev_log_index, prev_log_term, entries)
+                    .await?
+            };
         }
 
         if let Some(new_commit_index) = Self::if_update_commit_index_as_follower(
